@@ -70,11 +70,14 @@ func NewPortHolder() (*PortHolder, error) {
 	if err != nil {
 		return nil, err
 	}
-	if err := syscall.SetsockoptInt(fd, syscall.SOL_SOCKET, 0xf, 1); err != nil {
+	// Bind WITHOUT SO_REUSEPORT so that the kernel picks a port nobody else has (with the option set at bind time, port 0
+	// may be resolved to a port that another process holds with the same option, and connections would then be balanced
+	// between the two processes); set the option afterwards so that this process's own listener can join the port.
+	if err := syscall.Bind(fd, &syscall.SockaddrInet4{Port: 0, Addr: [4]byte{127, 0, 0, 1}}); err != nil {
 		syscall.Close(fd)
 		return nil, err
 	}
-	if err := syscall.Bind(fd, &syscall.SockaddrInet4{Port: 0, Addr: [4]byte{127, 0, 0, 1}}); err != nil {
+	if err := syscall.SetsockoptInt(fd, syscall.SOL_SOCKET, 0xf, 1); err != nil {
 		syscall.Close(fd)
 		return nil, err
 	}
@@ -139,6 +142,11 @@ func (f *FakeForward) acceptLoop() {
 			return
 		}
 		f.mu.Lock()
+		if f.closed {
+			f.mu.Unlock()
+			c.Close() // accepted while Close() was already collecting the connections
+			continue
+		}
 		idx := f.accepted
 		f.accepted++
 		var at UpstreamAttempt
@@ -234,13 +242,16 @@ func (f *FakeForward) serve(idx int, c net.Conn, at UpstreamAttempt) {
 						_, _ = c.Write(ackBytes("bogus-" + msg.OptChunk))
 					}
 				}
+				// the ACK is written under the lock: a snapshot must never see a message as unacknowledged whose ACK the
+				// agent may already have received (the few bytes never block on a live socket)
+				f.mu.Lock()
+				_ = c.SetWriteDeadline(time.Now().Add(2 * time.Second))
 				if _, werr := c.Write(ackBytes(msg.OptChunk)); werr == nil {
-					f.mu.Lock()
 					rm.Acked = true
 					rm.AckSeq = f.events
 					f.events++
-					f.mu.Unlock()
 				}
+				f.mu.Unlock()
 			}
 		}
 		if err != nil {
